@@ -52,6 +52,12 @@ fn fill_with_fields_locations_greedy(
     line: &[u8],
     delimiter: &[u8],
 ) {
+    if delimiter.is_empty() {
+        // a run of empty delimiters is an empty delimiter
+        // (and the loops below need a delimiter to advance)
+        return fill_with_fields_locations(buffer, line, delimiter);
+    }
+
     buffer.clear();
 
     if line.is_empty() {
@@ -166,6 +172,11 @@ fn maybe_replace_delimiter<'a>(text: &'a [u8], opt: &Opt) -> std::borrow::Cow<'a
 }
 
 fn trim<'a>(buffer: &'a [u8], trim_kind: &Trim, delimiter: &[u8]) -> &'a [u8] {
+    if delimiter.is_empty() {
+        // nothing to trim (and the loops below need a delimiter to advance)
+        return buffer;
+    }
+
     match trim_kind {
         Trim::Both => {
             let mut idx = 0;
